@@ -49,6 +49,10 @@ type Script struct {
 	// Spell: how the peer spells its JSON (memio.Respell mode): escape sequences inside strings and spaces
 	// that do not change the meaning of any message.
 	Spell int `json:"spell,omitempty"`
+	// Restored: the server session is connected with ServerSessionOptions.State recording a handshake that had
+	// got as far as "accepted" (initialize answered) or "initialized" (notification received) before, as a
+	// distributed deployment resuming a session does: the lifecycle goes on from there.
+	Restored string `json:"restored,omitempty"`
 }
 
 var methods = []string{
@@ -80,6 +84,7 @@ func genScript(rt *rapid.T) Script {
 		s.Msgs = append(s.Msgs, m)
 	}
 	s.Spell = rapid.SampledFrom([]int{0, 0, 0, 1, 2, 3, 4, 5}).Draw(rt, "spell")
+	s.Restored = rapid.SampledFrom([]string{"", "", "", "", "accepted", "initialized", "initialized"}).Draw(rt, "restored")
 	return s
 }
 
@@ -226,7 +231,16 @@ func runInBubble(s Script) (res vt.Result) {
 		return &mcp.ReadResourceResult{Contents: []*mcp.ResourceContents{{URI: "file:///a", Text: "x"}}}, nil
 	})
 	a, b := memio.NewPipe()
-	ss, err := server.Connect(context.Background(), &mcp.IOTransport{Reader: a, Writer: a}, nil)
+	var sopts *mcp.ServerSessionOptions
+	if s.Restored != "" {
+		st := &mcp.ServerSessionState{InitializeParams: &mcp.InitializeParams{ProtocolVersion: "2025-06-18", Capabilities: &mcp.ClientCapabilities{}, ClientInfo: &mcp.Implementation{Name: "earlier", Version: "1"}}}
+		if s.Restored == "initialized" {
+			st.InitializedParams = &mcp.InitializedParams{}
+		}
+		sopts = &mcp.ServerSessionOptions{State: st}
+		res.Class("session_restored_" + s.Restored)
+	}
+	ss, err := server.Connect(context.Background(), &mcp.IOTransport{Reader: a, Writer: a}, sopts)
 	if err != nil {
 		res.Failf("harness: %v", err)
 		return
@@ -239,7 +253,10 @@ func runInBubble(s Script) (res vt.Result) {
 
 	// ---- reference lifecycle machine ----
 	phase := "fresh" // fresh | accepted | initialized
-	mixed := false   // a modern request has been served on this session: legacy gating no longer asserted
+	if s.Restored != "" {
+		phase = s.Restored
+	}
+	mixed := false // a modern request has been served on this session: legacy gating no longer asserted
 	modelLevel := ""
 	var desc strings.Builder
 	ntPre, ntFailedInit, sawMeta, sawLegacy := false, false, false, false
